@@ -658,15 +658,47 @@ pub fn d_run(c: &DCase) -> Outcome {
     Ok(obs)
 }
 
+/// bounded-exhaustive scope: every loop-free labelled undirected graph on 1..=7 nodes (the encoding
+/// type rotates with the index)
+fn g_enum_count(_tier: Tier) -> u64 {
+    small_simple_und_count(7)
+}
+#[derive(Debug, Clone, Serialize, Deserialize)]
+pub struct GECase {
+    pub n: u8,
+    pub mask: u64,
+    pub enc: u8,
+}
+fn g_enum_make(_tier: Tier, i: u64) -> GECase {
+    let (n, mask) = small_simple_und(i, 7).expect("index within the scope");
+    GECase { n: n as u8, mask, enc: (i % 8) as u8 }
+}
+fn g_enum_run(c: &GECase) -> Outcome {
+    let n = c.n as usize;
+    let mut adj = vec![vec![false; n]; n];
+    let mut bit = 0;
+    for u in 0..n {
+        for v in (u + 1)..n {
+            if (c.mask >> bit) & 1 == 1 {
+                adj[u][v] = true;
+                adj[v][u] = true;
+            }
+            bit += 1;
+        }
+    }
+    g_core(n, adj, c.enc, (c.mask % 251) as u8)
+}
+
 pub fn property() -> Property {
     Property {
         id: "C18",
-        rule: "graph6: simple undirected graphs on 0..=70 nodes (three size classes: 0..12, 58..68 around the 62/63 header switch, 13..70; four densities) stored as Graph<u8|u16|u32|usize>, StableGraph with vacancies, GraphMap, MatrixGraph with reused ids, Csr: graph6_string() must equal an independent 30-line encoder written from the format text; from_graph6_string of the reference string must have exactly those nodes and edges in each of the five types, and re-encoding gives the same string; non-trivial = n >= 2 with an edge. Dot: random multigraphs (<=6 nodes quick) in Graph / StableGraph with vacancies / MatrixGraph / Csr / GraphMap-derived Graph, every subset of the five Config flags x RankDir, node and edge weights = strings over the adversarial alphabet {\" \\ \\n \\r l n space ] [ ; { } - > a e-acute NUL}, formatted with {} {:?} {:#?} {:#}, with and without attribute getters: the output is tokenised and parsed by a hand-written parser for the DOT subset; header/connector match directedness, node statements are exactly to_index of the nodes in order, edge statements exactly the edges, at most one label per statement, no attribute that was not asked for, every label un-escapes to exactly what the formatter prints for the weight; non-trivial = a weight with a quote, backslash or newline is printed; distinct by case fingerprint",
+        rule: "graph6: simple undirected graphs on 0..=70 nodes (three size classes: 0..12, 58..68 around the 62/63 header switch, 13..70; four densities) stored as Graph<u8|u16|u32|usize>, StableGraph with vacancies, GraphMap, MatrixGraph with reused ids, Csr: graph6_string() must equal an independent 30-line encoder written from the format text; from_graph6_string of the reference string must have exactly those nodes and edges in each of the five types, and re-encoding gives the same string; non-trivial = n >= 2 with an edge. Dot: random multigraphs (<=6 nodes quick) in Graph / StableGraph with vacancies / MatrixGraph / Csr / GraphMap-derived Graph, every subset of the five Config flags x RankDir, node and edge weights = strings over the adversarial alphabet {\" \\ \\n \\r l n space ] [ ; { } - > a e-acute NUL}, formatted with {} {:?} {:#?} {:#}, with and without attribute getters: the output is tokenised and parsed by a hand-written parser for the DOT subset; header/connector match directedness, node statements are exactly to_index of the nodes in order, edge statements exactly the edges, at most one label per statement, no attribute that was not asked for, every label un-escapes to exactly what the formatter prints for the weight; non-trivial = a weight with a quote, backslash or newline is printed; distinct by case fingerprint; graph6 additionally on orders 200..=700 and around 256 and 4096 (sparse), and bounded-exhaustively on every loop-free graph on 1..=7 nodes",
         assumptions: &["EdgeIndexLabel is only required to print a number (its meaning is not documented)"],
         both_profiles: false,
         subs: vec![
             sub("graph6/encode+decode", 200_000, 3_000_000, g_strategy, g_run),
             sub("graph6/large-orders", 1_000, 20_000, gl_strategy, gl_run),
+            sub_enum("graph6/all-simple-graphs-to-7-nodes", g_enum_count, g_enum_make, g_enum_run),
             sub("dot/wellformed+faithful", 800_000, 16_000_000, d_strategy, d_run),
         ],
     }
